@@ -15,6 +15,12 @@ use std::task::{RawWaker, RawWakerVTable, Waker};
 /// argument of core's `atomic_load::<T, false>` — so separate scalar statics are unsafe to write.)
 pub(crate) struct Env {
     pub magic: u64,
+    /// LK_CALL: environment step to run (a plain fn registered by the harness), after skipping `lock_skip` matching acquisitions
+    pub lock_fn: Option<fn()>,
+    pub lock_skip: u32,
+    /// LK_U16_WORD: the 16-bit word the environment overwrites at the lock, and its new value
+    pub env_u16: *const u16,
+    pub env_new_u16: u16,
     /// first element of the fd array a REGISTER_FILES_UPDATE points to
     pub reg_fds0: i32,
     /// != 0: `Shared::wake_blocked_futures` is replaced by its frame contract (counts the call, touches nothing);
@@ -74,6 +80,10 @@ pub(crate) struct Env {
 }
 pub(crate) static mut E: Env = Env {
     magic: 0xA10A_10A1_5EED_F00D,
+    lock_fn: None,
+    lock_skip: 0,
+    env_u16: std::ptr::null(),
+    env_new_u16: 0,
     reg_fds0: 0,
     wbf_skip: 0,
     wbf_calls: 0,
@@ -176,15 +186,35 @@ pub(crate) const LK_NONE: u32 = 0;
 /// Other submitters appended entries and/or the kernel consumed some: head/tail are
 /// replaced by the (harness-chosen, invariant-respecting) values E.env_new_head/E.env_new_tail.
 pub(crate) const LK_RING_WORDS: u32 = 1;
+/// Other threads changed one 16-bit word (the buffer-ring tail).
+pub(crate) const LK_U16_WORD: u32 = 2;
+/// Another thread runs a whole (atomic, lock-protected) step: `lock_fn` is called before the lock is taken.
+pub(crate) const LK_CALL: u32 = 3;
 
 /// Called (through the injected cfg(kani) line) at the top of `crate::lock`.
 pub(crate) fn on_lock(addr: usize) {
     unsafe {
         E.lock_count += 1;
         if E.lock_kind != LK_NONE && addr == E.lock_addr {
+            if E.lock_skip > 0 {
+                E.lock_skip -= 1;
+                return;
+            }
+            if E.lock_kind == LK_CALL {
+                // disarm first: the environment step takes the same lock itself
+                E.lock_kind = LK_NONE;
+                E.lock_fired += 1;
+                if let Some(f) = E.lock_fn {
+                    f();
+                }
+                return;
+            }
             if E.lock_kind == LK_RING_WORDS {
                 (*E.env_head).store(E.env_new_head, Ordering::SeqCst);
                 (*E.env_tail).store(E.env_new_tail, Ordering::SeqCst);
+            }
+            if E.lock_kind == LK_U16_WORD {
+                (E.env_u16 as *mut u16).write(E.env_new_u16);
             }
             E.lock_fired += 1;
             E.lock_kind = LK_NONE;
